@@ -748,9 +748,100 @@ def rule_setter(ctx):
     return res.finish(5)
 
 
+def rule_sampleindex(ctx):
+    """In the split sweep one observation is moved from the right side to the left: its visibility, its class and its
+    weight are all properties of the same sample, so they are read at the same index.  (Position in the presorted order
+    and sample id are both usize; without sample weights weight_for ignores its argument, so only weighted data shows a
+    mix-up.)"""
+    from .c17 import for_loops
+    res = RuleResult("R-C14-sampleindex", "within the split sweep, the row mask, the target and the sample weight of the moved observation are read at the same index")
+    F = ctx.facts()
+    n = 0
+    for fn in find_fn(res, F, "fit", "TreeNode"):
+        c = fn["crate"]
+        r = Render(c)
+        key = fn_key(fn)
+        for it, pat, body, node in for_loops(fn["body"]):
+            # innermost loops only
+            if any(True for _ in for_loops(body)):
+                continue
+            idx = {}
+            for y in walk(body):
+                if y.get("k") == "MethodCall" and y["name"] == "weight_for" and y["args"]:
+                    idx.setdefault("weight", []).append(peel_refs(y["args"][0]))
+                if y.get("k") == "Index":
+                    base = peel_refs(y["e"])
+                    bt = c.ty(base.get("t")) or ""
+                    if base.get("k") == "Field" and base["name"] == "mask":
+                        idx.setdefault("mask", []).append(peel_refs(y["i"]))
+                    elif base.get("k") == "Path" and base.get("name") in ("target", "targets") or ("ArrayBase" in bt and "Dim<[usize; 1]>" in bt and base.get("k") == "Path" and "target" in (base.get("name") or "")):
+                        idx.setdefault("target", []).append(peel_refs(y["i"]))
+            if "weight" not in idx or len(idx) < 2:
+                continue
+            n += 1
+            res.instance("%s : sweep loop reads %s" % (key, sorted(idx)))
+            locs = {k_: set(e.get("local") for e in v) for k_, v in idx.items()}
+            ref = locs.get("target") or locs.get("mask")
+            if None in locs["weight"] or None in ref:
+                res.undecided("%s : sample-index-form" % key, "an index of the sweep is not a plain local (fail closed)", fn_loc(fn, node["ln"]))
+            elif locs["weight"] != ref:
+                w = idx["weight"][0]
+                res.violate("%s : weight-of-other-sample" % key, "the moved observation's class / visibility is read at `%s` but its weight at `%s`: with sample weights the running side weights belong to other samples" % (r.e((idx.get("target") or idx.get("mask"))[0])[:30], r.e(w)[:30]), fn_loc(fn, w.get("ln")))
+            else:
+                res.ok()
+    if n < 1:
+        res.missing_anchor("the split sweep of TreeNode::fit (a loop reading the target and weight_for of one observation)")
+    return res.finish(1)
+
+
+def rule_maskcount(ctx):
+    """RowMask caches the number of visible rows next to the mask; `min_weight_split` is tested against that count.  Every
+    literal keeps the two in step: an all-false mask has count 0, an all-true mask of n rows has count n."""
+    res = RuleResult("R-C14-maskcount", "every RowMask literal's `nsamples` is the number of `true` entries of its mask (all-false: 0, all-true of n rows: n)")
+    F = ctx.facts()
+    n = 0
+    for fn in F.all_fns():
+        if fn["d"]["krate"] != "linfa_trees" or fn.get("exp"):
+            continue
+        c = fn["crate"]
+        r = Render(c)
+        for y in walk(fn["body"]):
+            if y.get("k") != "Struct" or not (c.dfn(y.get("def")) or {}).get("path", "").endswith("RowMask"):
+                continue
+            fields = {f_["name"]: f_["e"] for f_ in y.get("fields") or []}
+            if "mask" not in fields or "nsamples" not in fields:
+                continue
+            n += 1
+            key = fn_key(fn)
+            res.instance("%s : RowMask literal" % key)
+            fill = extent = None
+            for z in walk(fields["mask"]):
+                if z.get("k") == "Call" and strip(z["f"]).get("k") == "Path" and (c.dfn(strip(z["f"]).get("def")) or {}).get("name") == "from_elem" and len(z["args"]) == 2:
+                    a0 = peel_refs(z["args"][0])
+                    if a0.get("k") == "Lit" and str(a0.get("v")) in ("true", "false"):
+                        fill, extent = str(a0["v"]), peel_refs(z["args"][1])
+            cnt = peel_refs(fields["nsamples"])
+            if fill is None:
+                res.undecided("%s : mask-form" % key, "the mask of a RowMask literal is not `vec![bool; n]` (fail closed)", fn_loc(fn, y["ln"]))
+            elif fill == "false":
+                if cnt.get("k") == "Lit" and str(cnt.get("v")) == "0":
+                    res.ok()
+                else:
+                    res.violate("%s : hidden-mask-with-count" % key, "an all-hidden RowMask is created with `nsamples = %s`: the visible-row count no longer equals the number of visible rows, and every node grown from it tests min_weight_split against an inflated count" % r.e(cnt)[:30], fn_loc(fn, y["ln"]))
+            else:
+                if cnt.get("k") == "Path" and cnt.get("local") is not None and cnt.get("local") == extent.get("local"):
+                    res.ok()
+                else:
+                    res.violate("%s : visible-mask-count" % key, "an all-visible RowMask of `%s` rows is created with `nsamples = %s`" % (r.e(extent)[:20], r.e(cnt)[:30]), fn_loc(fn, y["ln"]))
+    if n < 2:
+        res.missing_anchor("RowMask literals (all / none; found %d)" % n)
+    return res.finish(2)
+
+
 def rules(tier):
     from . import carry, c04
     from . import precision
     return [rule_route, rule_limits, rule_weights, rule_layout, rule_importance, rule_rowindex, rule_impurity, rule_setter, rule_majority,
             carry.make_clone_rule("R-C14-clone", {"linfa_trees"}, 4), carry.make_setter_rule("R-C14-override", {"linfa_trees"}, 4), c04.make_carry_rule("R-C14-carry", {"DecisionTreeParams"}, 4),
-            precision.make_rule("R-C14-precision", lambda f: f["d"]["krate"] == "linfa_trees", 40, "linfa-trees")]
+            precision.make_rule("R-C14-precision", lambda f: f["d"]["krate"] == "linfa_trees", 40, "linfa-trees"),
+            carry.make_accessor_rule("R-C14-accessor", {"linfa_trees"}, 4), carry.make_ctor_rule("R-C14-ctor", {"linfa_trees"}, 1), rule_sampleindex, rule_maskcount]
